@@ -1477,6 +1477,53 @@ impl Simulator {
         Ok(())
     }
 }
+#[cfg(feature = "verif")]
+impl Simulator {
+    /// Verification hook: builds a simulator in an arbitrary machine state without loading the OS.
+    ///
+    /// Breakpoints and internal register mappings start empty.
+    #[allow(clippy::too_many_arguments)]
+    pub fn verif_from_parts(
+        flags: SimFlags, mem: MemArray, reg_file: RegFile, pc: u16, psr: u16, saved_sp: Word,
+        frame_stack: FrameStack, alloca: Box<[(u16, u16)]>, instructions_run: u64, prefetch: bool,
+        device_handler: DeviceHandler
+    ) -> Self {
+        Self {
+            mem, reg_file, pc, psr: PSR(psr), saved_sp, frame_stack, alloca, instructions_run, prefetch,
+            pause_condition: Default::default(),
+            observer: Default::default(),
+            os_loaded: true,
+            mcr: Arc::default(),
+            flags,
+            breakpoints: Default::default(),
+            ireg_mmap: HashMap::new(),
+            device_handler
+        }
+    }
+    /// Verification hook: the saved stack pointer.
+    pub fn verif_saved_sp(&self) -> Word {
+        self.saved_sp
+    }
+    /// Verification hook: the prefetch flag.
+    pub fn verif_prefetch(&self) -> bool {
+        self.prefetch
+    }
+    /// Verification hook: the pause condition
+    /// (0 = halt, 1 = MCR off, 2 = breakpoint, 3 = tripwire, 4 = unsuccessful).
+    pub fn verif_pause_condition(&self) -> u8 {
+        match self.pause_condition {
+            PauseCondition::Halt => 0,
+            PauseCondition::MCROff => 1,
+            PauseCondition::Breakpoint => 2,
+            PauseCondition::Tripwire => 3,
+            PauseCondition::Unsuccessful => 4,
+        }
+    }
+    /// Verification hook: the allocated block list.
+    pub fn verif_alloca(&self) -> &[(u16, u16)] {
+        &self.alloca
+    }
+}
 impl Default for Simulator {
     fn default() -> Self {
         Self::new(Default::default())
